@@ -125,6 +125,9 @@ pub struct World {
     /// (nonce, accepted?) for every replayed resolution: what the shell must have been told
     pub resolve_log: Vec<(u32, bool)>,
     pub used_retaining_exemption: u64,
+    /// tolerate the known finding that the legacy executor keeps a task whose request was dropped
+    pub tolerate_legacy_kept: bool,
+    pub used_legacy_exemption: u64,
     pub spurious_polls: u64,
     /// (request, nonce) of every value a leaf future of the reference handed to its task, in order
     pub delivered: Vec<(Path, u32)>,
@@ -1168,6 +1171,14 @@ impl RefRt {
             }
             if self.runnable(i) {
                 return Err(format!("runnable work left behind when the call returned: task {path:?}{}", if aborted || in_aborted { " (cancelled, should have been discarded)" } else { "" }));
+            }
+            if !aborted && !in_aborted && legacy && self.dead(i) && !self.shell_holds_any(i) {
+                // the legacy executor never discards a task: one whose request the shell dropped stays for ever
+                if self.w.lock().unwrap().tolerate_legacy_kept {
+                    self.w.lock().unwrap().used_legacy_exemption += 1;
+                    continue;
+                }
+                return Err(format!("a task nothing can wake any more was kept: {path:?} [legacy capability API: the request it waits for was dropped]"));
             }
             if !aborted && !in_aborted && !legacy && self.dead(i) && !self.shell_holds_any(i) {
                 if retaining && self.w.lock().unwrap().tolerate_retaining {
